@@ -60,7 +60,7 @@ CLAIMS = {
             "note": E2_NOTE + " The own-step bound is a concrete number (4x quiescent cost + 64); lookups of expired keys are excluded as in the property."},
     "C10": {"engine": "E3", "design_ref": "DESIGN.md section 4 C10",
             "technique": "differential property testing against builtin map[K]V over a catalogue of key types with equal-but-differently-represented keys",
-            "text": "For 19 comparable key types incl. interface-typed keys holding pointers, nil pointers and the nil interface, padded structs with dirty padding, signed zeros: generated call sequences on MapOf/CacheOf (default and fully colliding hashers) compared call by call with a builtin map; no valid key may panic.",
+            "text": "For 28 comparable key types incl. interface-typed keys holding pointers, nil pointers and the nil interface, padded structs with dirty padding, signed zeros: generated call sequences on MapOf/CacheOf (default and fully colliding hashers) compared call by call with a builtin map; no valid key may panic.",
             "note": "Sequential; NaN excluded (not equal to itself); the per-process hash key is varied by running several processes, not enumerated."},
     "C11": {"engine": "E1", "design_ref": "DESIGN.md section 4 C11",
             "technique": "differential/metamorphic property testing: one generated call sequence on instances with different size hints, table seeds and hashers, plus a reference map model",
